@@ -27,14 +27,26 @@ def parseCfg (ws : List String) : Option St :=
 
 def parseInput (s : String) : Option InBatch :=
   if s = "x" then some { cancel := true } else
-  match s.splitOn ":" with
-  | [k, v] =>
+  let mk (k v : String) (md : List (Bytes × Bytes)) : Option InBatch :=
     match parseVals v with
     | some vs =>
-      if k = "s" then some { kind := .same, vals := vs }
-      else if k = "c" then some { kind := .castable, vals := vs }
-      else if k = "b" then some { kind := .bad, vals := vs }
+      if k = "s" then some { kind := .same, vals := vs, md := md }
+      else if k = "c" then some { kind := .castable, vals := vs, md := md }
+      else if k = "b" then some { kind := .bad, vals := vs, md := md }
       else none
+    | none => none
+  match s.splitOn ":" with
+  | [k, v] => mk k v []
+  | [k, v, m] =>
+    -- the client's own metadata: sorted, unique, none of the transport's keys
+    match allSome ((m.splitOn ";").map fun kv =>
+        match kv.splitOn "=" with
+        | [a, b] => match hexBytes? a, hexBytes? b with
+          | some ka, some vb => some (ka, vb)
+          | _, _ => none
+        | _ => none) with
+    | some md =>
+      if strictlySorted (md.map (·.1)) && md.all (fun kv => !isFramework kv.1) then mk k v md else none
     | none => none
   | _ => none
 
